@@ -36,8 +36,10 @@ def exhaustive(tier: str) -> Any:
 class Live:
     """A live session inside a Sim, re-established on demand, with an all-types recording subscriber."""
 
-    def __init__(self, sim: Sim, framing: str) -> None:
+    def __init__(self, sim: Sim, framing: str, record_all: bool = True) -> None:
         from aioesphomeapi import api_pb2 as pb
+
+        self.record_all = record_all   # False: no catch-all recorder, so that a type can have NO subscriber, or exactly one
 
         self.sim = sim
         self.framing = framing
@@ -66,7 +68,8 @@ class Live:
             raise RuntimeError(f"connect failed: {c.exc!r}")
         self.conn = self.cli._connection  # noqa: SLF001
         self.view = sim.view(self.conn)
-        self.conn.add_message_callback(lambda m: self.log.append((sim.next_seq(), m)), self.classes)
+        if self.record_all:
+            self.conn.add_message_callback(lambda m: self.log.append((sim.next_seq(), m)), self.classes)
         self.n_sessions += 1
 
     @property
@@ -209,7 +212,7 @@ def run_history(framing: str, ops: list[Any]) -> dict[str, Any]:
     from aioesphomeapi import api_pb2 as pb
 
     with Sim() as sim:
-        live = Live(sim, framing)
+        live = Live(sim, framing, record_all=False)   # the histories' own subscribers are the only ones (a sole handler must be able to exist)
         live.ensure()
         conn = live.conn
         classes = [getattr(pb, n) for n in TYPE_NAMES]
@@ -540,7 +543,54 @@ def crossing_disconnects(ctx: Ctx) -> None:
                     sim.run(until=lambda: d.done, max_time=sim.clock + 20)
 
 
+def bad_payload_without_subscriber(ctx: Ctx) -> None:
+    """A payload the protobuf runtime rejects closes the session with a protocol error whether or not anybody listens for that type
+    and whether or not debug logging is on."""
+    from aioesphomeapi.core import ProtocolAPIError
+
+    res = ctx.res
+    pr = protoparse.load_api()
+    idx = 0
+    bad = [b"\x0d\x01", b"\xff", b"\x0a\x7f\x01", b"\x08"]
+    for framing in ("plain", "noise"):
+        for debug in (False, True):
+            for subscribed in (False, True):
+                for ty in (25, 22, 8, 4, 10, 54, 70, 107, 123):
+                    idx += 1
+                    if not ctx.mine(idx):
+                        continue
+                    m = pr.by_id[ty]
+                    with Sim() as sim:
+                        live = Live(sim, framing, record_all=False)
+                        live.ensure()
+                        live.cli.set_debug(debug)
+                        cls = getattr(live.pb, m.name)
+                        payload = None
+                        for b in bad:
+                            try:
+                                cls().ParseFromString(b)
+                            except Exception:  # noqa: BLE001
+                                payload = b
+                                break
+                        if payload is None:
+                            continue
+                        if subscribed:
+                            live.conn.add_message_callback(lambda _m: None, (cls,))
+                        live.dconn.send_id(ty, payload, 0.0)
+                        sim.run_for(0.05)
+                        v = live.view
+                        res.evaluations += 1
+                        res.count("workload/bad-payload-known-type")
+                        res.sig("bad-payload", framing, debug, subscribed, ty)
+                        first = v.fatals[0][2] if v.fatals else None
+                        case = {"framing": framing, "id": ty, "payload": payload.hex(), "payload_class": "rejected-by-protobuf", "debug": debug, "subscribed": subscribed}
+                        if live.conn.connection_state.name != "CLOSED" or not isinstance(first, ProtocolAPIError):
+                            res.violation("C12/bad-payload-not-fatal", f"[{framing} id={ty} {m.name} debug={debug} subscribed={subscribed}] state "
+                                          f"{live.conn.connection_state.name}, first fatal {first!r}; expected CLOSED with ProtocolAPIError", case, trace=sim.trace(25))
+
+
 def shard(ctx: Ctx) -> None:
+    bad_payload_without_subscriber(ctx)
     undefined_frames_and_keepalive(ctx)
     crossing_disconnects(ctx)
     id_sweep(ctx)
